@@ -40,7 +40,7 @@ from ..width import cw, sw
 ID = "C07"
 LEVEL = "exploration"
 ENGINE = "E1"
-CAP_S = {"quick": 300, "thorough": 1800}
+CAP_S = {"quick": 900, "thorough": 3000}
 TECHNIQUE = ("bounded-exhaustive enumeration of table descriptions (shape x cell filling x deviation-bounded "
              "option vectors x every width from the structural minimum) on the real Table, judged by an "
              "independent rectangle / column-span / row-block reference")
@@ -73,7 +73,7 @@ T_CHARS = "╔═══╗║y║╚═══╝"
 P_RE = re.compile(r"^╔(═*)╗║x║╚(═*)╝$")
 
 TITLE, CAPTION = "Q R", "U V"
-TITLE_CH, CAPTION_CH = set("QR…"), set("UV…")
+TITLE_CH, CAPTION_CH = set("QR"), set("UV")
 
 DEFAULT_HEADER, FOOTER = "h", "f"
 
@@ -360,6 +360,8 @@ def judge(desc, W, lines):
                 key = "expand/narrower-than-available" if width < want else "expand/wider-than-available"
                 if _topt(desc, "min_width") is not None:
                     key += "/table-min_width-set"
+                if any(_copt(desc, i, "min_width") is not None for i in range(n)):
+                    key += "/column-min_width-set"
                 v.bad(key, "table asked to fill %d cells (struct_min %d) but its lines are %d cells wide" % (want, smin, width))
 
     # -- (3) boundaries
@@ -603,49 +605,62 @@ def widths_for(desc):
     return ws
 
 
-def _bounds(tier):
-    if tier == "quick":
-        return {"maxcols": 3, "k": 2, "offsets": (0, 3), "one_row_cols": 3}
-    return {"maxcols": 4, "k": 3, "offsets": (0, 3, 5), "one_row_cols": 3}
-
-
-SLICES = 16
+SLICES = 48
 A_TOPTS = [(), ((("t", "expand"), True),), ((("t", "box"), "NONE"),), ((("t", "show_lines"), True),),
            ((("t", "padding"), 0),)]
 
+# units of family O: (columns, rows, filling offset, column default overflow, deviation bound)
+def _units(tier):
+    out = []
+    if tier == "quick":
+        for n in (1, 2, 3):
+            for rows in (0, 1, 2, 3):
+                out.append((n, rows, 0, "fold", 2 if rows <= 2 else 1))
+                out.append((n, rows, 3 if rows else 0, "ellipsis", 1))
+    else:
+        for n in (1, 2, 3):
+            for rows in (0, 1, 2, 3):
+                for off in ((0, 3) if rows else (0,)):
+                    for bo in ("fold", "ellipsis"):
+                        k = 2
+                        if off == 0 and bo == "fold" and (n <= 2 or rows == 2):
+                            k = 3
+                        out.append((n, rows, off, bo, k))
+        for rows in (0, 1, 2, 3):
+            out.append((4, rows, 0, "fold", 2))
+            out.append((4, rows, 3 if rows else 0, "ellipsis", 1))
+    return out
+
+
+def _ncombos(natoms, k):
+    # upper estimate, only used to size shards
+    import math
+    return sum(math.comb(natoms, j) for j in range(k + 1))
+
 
 def plan(tier, seed):
-    b = _bounds(tier)
     shards = []
-    for n in range(1, b["maxcols"] + 1):
-        for nrows in range(0, 4):
-            for off in (b["offsets"] if nrows else b["offsets"][:1]):
-                for bo in ("ellipsis", "fold"):
-                    k = b["k"]
-                    if tier == "thorough" and n == 4:
-                        k = 2
-                    natoms = len(_atoms(n, nrows, bo))
-                    parts = 1 if k < 2 else (2 if natoms < 50 else 4)
-                    if k >= 3:
-                        parts = 24 if natoms >= 50 else 12
-                    for i in range(parts):
-                        shards.append({"fam": "O", "n": n, "rows": nrows, "off": off, "bo": bo, "k": k,
-                                       "i": i, "parts": parts})
-    # family A: every filling of one-row tables (and of 1x2, 2x2 over the plain menu)
-    for n in range(1, b["one_row_cols"] + 1):
-        parts = 1 if n < 3 else 4
+    target = 12.0 if tier == "quick" else 60.0          # estimated cpu-seconds per shard
+    for n, rows, off, bo, k in _units(tier):
+        natoms = len(_atoms(n, rows, bo))
+        cost = _ncombos(natoms, k) * 13 * (1.2 + 0.85 * n * rows) / 1000.0
+        parts = max(1, int(cost / target + 0.999))
         for i in range(parts):
-            shards.append({"fam": "A", "n": n, "rows": 1, "i": i, "parts": parts})
-    shards.append({"fam": "A", "n": 1, "rows": 2, "i": 0, "parts": 1})
+            shards.append({"fam": "O", "n": n, "rows": rows, "off": off, "bo": bo, "k": k, "i": i, "parts": parts})
+    # family A: every filling of small tables
+    for n, rows, parts in ((1, 1, 1), (2, 1, 1), (3, 1, 8), (1, 2, 1)):
+        for i in range(parts):
+            shards.append({"fam": "A", "n": n, "rows": rows, "i": i, "parts": parts})
     if tier == "thorough":
-        for i in range(8):
-            shards.append({"fam": "A", "n": 2, "rows": 2, "i": i, "parts": 8})
+        for i in range(12):
+            shards.append({"fam": "A", "n": 2, "rows": 2, "i": i, "parts": 12})
         for i in range(20):
             shards.append({"fam": "B", "vec": i})
     else:
         # rotating slice of the thorough space: three deviations on two shapes
-        for (n, nrows) in ((2, 2), (3, 1)):
-            shards.append({"fam": "O3", "n": n, "rows": nrows, "off": 0, "bo": "fold", "slice": seed % SLICES})
+        for (n, rows) in ((2, 2), (3, 1)):
+            shards.append({"fam": "O3", "n": n, "rows": rows, "off": 0, "bo": "fold", "slice": seed % SLICES})
+    # biggest first so that the pool drains evenly
     return shards
 
 
@@ -741,23 +756,23 @@ def run_shard(sh, tier, seed):
 
 
 def describe(tier, seed, res):
-    b = _bounds(tier)
+    units = _units(tier)
+    utxt = "; ".join("%dx%d off%d %s k<=%d" % (n, r, off, bo, k) for n, r, off, bo, k in units)
     return {
-        "rule": "family O: tables with 1..%d columns x 0..3 rows, %d fixed cell fillings per shape (menu %r rotated), "
-                "column default overflow in {ellipsis, fold}, every set of <=%d option deviations (table options: %s; "
-                "per-column options: %s; a ratio deviation switches expand on)%s; family A: every filling of one-row "
-                "tables with <=%d columns and of the 2-row 1-column table over the full 8-entry menu%s x 5 table option "
-                "vectors x {ellipsis, fold}%s; every console width in [struct_min, struct_min+10] + {40, 80} "
-                "(tables with a fixed width: console widths width-1, width, width+1, width+7, 80). "
-                "A case is non-trivial when the expansion clause or an exact fold-content clause was judged or some "
-                "row needed more than one line; distinct = distinct outcome signatures (box kind, columns, rows, slack "
-                "class, clauses judged, border lines, wrapped, ample, title)."
-                % (b["maxcols"], len(b["offsets"]), MENU, b["k"],
-                   ", ".join(a for a, _ in T_ATOMS), ", ".join(a for a, _ in C_ATOMS),
-                   " (4-column tables: <=2 deviations)" if tier == "thorough" else "",
-                   b["one_row_cols"], " and of 2x2 tables over the 6 plain entries" if tier == "thorough" else "",
-                   "; family B: 6 columns x 8 rows x 20 option vectors" if tier == "thorough"
-                   else "; plus rotating slice %d of %d of the three-deviation vectors on the 2x2 and 3x1 shapes" % (seed % SLICES, SLICES)),
+        "rule": "family O (columns x rows, filling offset, column default overflow, deviation bound): %s. A filling puts "
+                "menu %r, rotated by the offset, row-major into the cells. A deviation is one non-default table option "
+                "(%s) or one non-default option of one column (%s); a ratio deviation switches expand on; table width = "
+                "struct_min+3. All sets of <=k deviations are enumerated. Family A: every filling of the 1x1, 2x1, 3x1 "
+                "(columns x rows) and 1x2 tables over the full menu%s x 5 table option vectors x {ellipsis, fold}%s. "
+                "Every console width in [struct_min, struct_min+10] + {40, 80} (tables with a fixed width: console widths "
+                "width-1, width, width+1, width+7, 80). A case is non-trivial when the expansion clause or an exact "
+                "fold-content clause was judged or some row needed more than one line; distinct = distinct outcome "
+                "signatures (box kind, columns, rows, slack class, clauses judged, border lines, wrapped, ample, title)."
+                % (utxt, MENU, ", ".join(a for a, _ in T_ATOMS), ", ".join(a for a, _ in C_ATOMS),
+                   " and of 2x2 tables over the 6 plain entries" if tier == "thorough" else "",
+                   "; family B: 6 columns x 8 rows x 20 option vectors x 2 fillings x {ellipsis, fold}" if tier == "thorough"
+                   else "; plus rotating slice %d of %d of the three-deviation vectors on the 2x2 and 3x1 shapes "
+                        "(fold, offset 0)" % (seed % SLICES, SLICES)),
         "assumptions": [
             "cell widths = Rich's CELL_WIDTHS data scanned linearly (vf/width.py)",
             "for boxes without visible column dividers (None, SIMPLE) the column spans are the implementation's own width vector (checked to add up to the line width)",
